@@ -188,6 +188,9 @@ func csRun(b *csBeh) *csObs {
 		Logger:             csNopLogger{},
 		MaxConnsPerIP:      map[bool]int{false: 0, true: 2}[b.Cfg.PerIP],
 		ConnState: func(c net.Conn, st ConnState) {
+			if _, ok := c.(*csDisturbConn); ok {
+				return // unrelated traffic generated by csDisturb
+			}
 			o.mu.Lock()
 			if len(o.states) == 0 {
 				o.stateConn = c
@@ -201,6 +204,9 @@ func csRun(b *csBeh) *csObs {
 	}
 	s.Handler = func(ctx *RequestCtx) {
 		var idx int
+		if string(ctx.Path()) == "/disturb" {
+			return
+		}
 		fmt.Sscanf(string(ctx.Path()), "/r%d", &idx)
 		o.mu.Lock()
 		o.disp = append(o.disp, idx)
@@ -213,6 +219,9 @@ func csRun(b *csBeh) *csObs {
 			ctx.SetConnectionClose()
 		}
 		ctx.SetBodyString(fmt.Sprintf("body-of-r%d", idx))
+		if r.Kind == "nrflag" {
+			ctx.HijackSetNoResponse(true) // without Hijack: must not affect this or any later request
+		}
 		if r.Kind == "timeout" {
 			ctx.TimeoutError("verif timeout") // the serve loop continues with a fresh ctx
 			return
@@ -235,6 +244,11 @@ func csRun(b *csBeh) *csObs {
 					o.mu.Unlock()
 				}
 				c.Write([]byte("HIJACKED\n")) //nolint:errcheck
+				// other traffic on the same server before the handler reads what was buffered
+				// for it: the handed-over bytes must not depend on it
+				for i := 0; i < 3; i++ {
+					csDisturb(s)
+				}
 				data, _ := io.ReadAll(c)
 				o.mu.Lock()
 				o.hijRead = data
@@ -440,6 +454,25 @@ outer:
 		sc.mu.Unlock()
 	}
 	return o
+}
+
+type csDisturbConn struct{ net.Conn }
+
+// csDisturb serves one unrelated request with distinctive bytes on another connection of s.
+func csDisturb(s *Server) {
+	pc := fasthttputil.NewPipeConns()
+	done := make(chan struct{})
+	go func() { s.ServeConn(&csDisturbConn{pc.Conn1()}); close(done) }() //nolint:errcheck
+	c := pc.Conn2()
+	c.Write([]byte("GET /disturb HTTP/1.1\r\nHost: other\r\nConnection: close\r\nX-Fill: " + strings.Repeat("B", 3000) + "\r\n\r\n")) //nolint:errcheck
+	c.SetReadDeadline(time.Now().Add(2 * time.Second))                                                                                //nolint:errcheck
+	var resp Response
+	resp.Read(bufio.NewReader(c)) //nolint:errcheck
+	c.Close()
+	select {
+	case <-done:
+	case <-time.After(2 * time.Second):
+	}
 }
 
 const csLaterBytes = "LATER-BYTES-AFTER-HIJACK\r\n\r\n"
